@@ -84,7 +84,11 @@ def run(ctx):
     outs = core.run_driver(lines)
     k = 0
     for lo, hi in pairs:
-        cid = make_cid([{"name": "n", "empty": False, "length": "", "type": "Integer", "rule": "%d...%d" % (lo, hi)}])
+        rule_text = "%d...%d" % (lo, hi)
+        if hi - lo > 20 and (lo + hi) % 3 == 0:
+            # the same overall limits written in several parts, the one with the upper limit first
+            rule_text = "%d...%d, %d...%d" % (hi - 3, hi, lo, lo + 2)
+        cid = make_cid([{"name": "n", "empty": False, "length": "", "type": "Integer", "rule": rule_text}])
         for d in DIALECTS:
             _, mkv = parse_kv("x " + outs[k])
             k += 1
@@ -96,7 +100,7 @@ def run(ctx):
                 continue
             name, quoted, tname, args, not_null = cols[0]
             margs = [] if mkv["args"] == "~" else [int(a) for a in mkv["args"].split(",")]
-            case = {"range": "%d...%d" % (lo, hi), "dialect": d, "statement": st, "model": outs[k - 1]}
+            case = {"range": rule_text, "dialect": d, "statement": st, "model": outs[k - 1]}
             ctx.count(key=(lo, hi, d), branch="%s:%s" % (d, tname))
             ctx.sample(case)
             if (tname, args) != (mkv["type"], margs):
@@ -126,9 +130,12 @@ def run(ctx):
             ty = rnd.choice(["Text", "Integer", "Decimal", "Choice", "DateTime", "Pattern"])
             f = {"name": name, "empty": rnd.random() < 0.4, "length": "", "type": ty, "rule": ""}
             if ty == "Text":
-                f["length"] = rnd.choice(["", "5", "1...20", "...30", "3...", "0...10", "0, 3...5", "0...4"])
+                f["length"] = rnd.choice(["", "5", "1...20", "...30", "3...", "0...10", "0, 3...5", "0...4", "10...20, 1...5", "12, 3", "7...9, 2"])
             elif ty == "Integer":
                 f["rule"] = "%d...%d" % (rnd.randint(-100, 0), rnd.randint(1, 10 ** rnd.randint(1, 12)))
+                if rnd.random() < 0.3:
+                    # several parts, the widest one not last
+                    f["rule"] = rnd.choice(["40000...50000, 1...9", "70000, -5...5", "1...3, 3000000000...4000000000, 10", "-40000...-30000, -9...-1"])
             elif ty == "Decimal":
                 a, b = rnd.randint(0, 4), rnd.randint(1, 6)
                 f["rule"] = "0.%s...%s.%s" % ("0" * a if a else "0", "9" * b, "9" * a if a else "0")
@@ -163,10 +170,10 @@ def run(ctx):
                 if f["type"] == "Decimal" and list(args) != list(f["digits"]):
                     ctx.violation("C19:decimal-digits:%s" % d, "column %s %s%r, rule %s implies %r" % (cname, tname, args, f["rule"], f["digits"]), case)
                 if f["type"] == "Text":
-                    m = re.match(r"^(?:\d+)?(?:\.\.\.)?(\d+)?$", f["length"])
                     upper = None
-                    if f["length"] and not f["length"].endswith("..."):
-                        upper = int(f["length"].split("...")[-1])
+                    parts = [p_.strip() for p_ in f["length"].split(",") if p_.strip()]
+                    if parts and not any(p_.endswith("...") for p_ in parts):
+                        upper = max(int(p_.split("...")[-1]) for p_ in parts)
                     if (args[:1] or [None])[0] != upper:
                         ctx.violation("C19:text-length:%s" % d, "column %s %s%r, upper length limit %r" % (cname, tname, args, upper), case)
 
